@@ -98,6 +98,7 @@ type Ctx struct {
 	qinst   map[string][]*qTemplate // quantified assumptions indexed by the array they read
 	qdone   map[string]bool
 	defOf   map[string]string // define-fun name -> its term
+	alias   map[string]string // contract-level name on the reference tree -> current source name
 	axiomLine map[int]bool // indices of lines that are global axioms (included in a query only when relevant)
 	pending []Term // definitional facts to be asserted (they may mention bound variables' skolems)
 }
